@@ -8,7 +8,7 @@ class C22(Prop):
     n_quick = 1500
     n_thorough = 50000
     shard = 250
-    ready = False
+    ready = True
     manifest = dict(
         text="Coq theorems over a Gallina transliteration of formatUpdater{H264,H265,MPEG4Video} and "
              "unitRemuxer{H264,H265,MPEG4Video,AV1} composed as subStreamFormat.writeUnitInner composes them: for every "
